@@ -164,14 +164,14 @@ both_families! {
 		}
 		match case.kind {
 			CKind::UserInfo => {
-				go!(UserInfo, UserInfoBuf, vec![format!("s://{t}@h/p"), format!("http://{t}@[::1]:80"), format!("s://{t}@:1#/f"), format!("s://{t}@12345")], |r| r.authority().and_then(|a| a.user_info()));
+				go!(UserInfo, UserInfoBuf, vec![format!("s://{t}@h/p"), format!("http://{t}@[::1]:80"), format!("s://{t}@:1#/f"), format!("s://{t}@12345"), format!("s://{t}@{}/p", "h".repeat(70)), format!("//{}{t}@{}:80", "", "long-host-name.example.org.long-host-name.example.org.long-host-name.example")], |r| r.authority().and_then(|a| a.user_info()));
 				if !case.embedded {
 					let ob = UserInfoBuf::new(t.into()).unwrap().into_pct_string();
 					ensure!(ob.as_str() == t, "into_pct_string", "{:?}: into_pct_string() = {:?}", t, ob.as_str());
 				}
 			}
 			CKind::Host => {
-				go!(Host, HostBuf, vec![format!("s://u@{t}:1/p"), format!("s://user:12345@{t}/"), format!("http://{t}#/f"), format!("s://a:b:c:d:e:f:g:h:i@{t}:65535?q"), format!("s://{t}")], |r| r.authority().map(|a| a.host()));
+				go!(Host, HostBuf, vec![format!("s://u@{t}:1/p"), format!("s://user:12345@{t}/"), format!("http://{t}#/f"), format!("s://a:b:c:d:e:f:g:h:i@{t}:65535?q"), format!("s://{t}"), format!("s://{}A@{t}:1/", "u".repeat(67)), format!("//{}AA@{t}", "user-info-user-info-user-info-user-info-user-info-user-info-user")], |r| r.authority().map(|a| a.host()));
 				if !case.embedded {
 					let ob = HostBuf::new(t.into()).unwrap().into_pct_string();
 					ensure!(ob.as_str() == t, "into_pct_string", "{:?}: into_pct_string() = {:?}", t, ob.as_str());
@@ -322,6 +322,6 @@ impl Prop for C19 {
 	}
 
 	fn floors(_tier: Tier) -> Vec<(&'static str, u64)> {
-		vec![("judged", 500_000), ("well-formed-octets", 100_000), ("ill-formed-octets", 300_000), ("embedded", 20_000)]
+		vec![("judged", 500_000), ("well-formed-octets", 100_000), ("ill-formed-octets", 300_000), ("embedded", 12_000)]
 	}
 }
